@@ -1,7 +1,20 @@
 (** C14 — Scheduler accounting equals ground truth recomputed from pods.
-    (placeholder: the invariant theorems are being added in Proofs/Node.v) *)
-From Coq Require Import List ZArith.
-From KaiV Require Import Model.Res Model.Status Model.AMap Model.Node Model.NodeSpec.
+    Statements only; proofs are in Proofs/Node.v.
+
+    [run n0 ops] applies a list of AddTask / RemoveTask / UpdateTask operations
+    to a node, skipping the ones the code rejects (the callers log and ignore
+    the error).  [tasks_of n] are the pods the node holds; [spec_*] (Model/
+    NodeSpec.v) recompute every counter from scratch from those pods and
+    their statuses.  [Books n] (unfolded in [C14_books_meaning]) says all
+    counters agree, except the whole-GPU idle / releasing counts, whose
+    treatment of shared devices is history dependent in the code (see
+    [C14_device_guard_refuted] and [C14_remove_add_inverse_shared_refuted]);
+    those two are exact when no shared task is involved
+    ([C14_node_wholegpu_exact]).
+    ConsolidateSharedPodInfoToDifferentGPU is excluded: it deliberately keeps a
+    second charge for the same pod. *)
+From Coq Require Import List ZArith PArith.
+From KaiV Require Import Model.Res Model.Status Model.AMap Model.Node Model.NodeSpec Proofs.Node.
 Import ListNotations.
 
 (** Non-vacuity / finding witness: on a 4-GPU node the device-count guard
@@ -31,3 +44,178 @@ Theorem C14_device_guard_refuted :
     (gpu (spec_idle (n_alloc n) (map snd (n_pods n))) - occupied_groups (map snd (n_pods n)) = 1)%Z.
 Proof. eexists. split; [vm_compute; reflexivity|]. split; vm_compute; reflexivity. Qed.
 Print Assumptions C14_device_guard_refuted.
+
+(** What [Books] says, spelled out. *)
+Theorem C14_books_meaning : forall n,
+  Books n <->
+  (n_used n = spec_used (tasks_of n)
+   /\ (cpu (n_idle n) = cpu (spec_idle (n_alloc n) (tasks_of n))
+       /\ mem (n_idle n) = mem (spec_idle (n_alloc n) (tasks_of n))
+       /\ pods (n_idle n) = pods (spec_idle (n_alloc n) (tasks_of n))
+       /\ mig (n_idle n) = mig (spec_idle (n_alloc n) (tasks_of n))
+       /\ ext (n_idle n) = ext (spec_idle (n_alloc n) (tasks_of n)))
+   /\ (cpu (n_rel n) = cpu (spec_rel (tasks_of n))
+       /\ mem (n_rel n) = mem (spec_rel (tasks_of n))
+       /\ pods (n_rel n) = pods (spec_rel (tasks_of n))
+       /\ mig (n_rel n) = mig (spec_rel (tasks_of n))
+       /\ ext (n_rel n) = ext (spec_rel (tasks_of n)))
+   /\ (forall g, zget g (g_used n) = spec_gused g (tasks_of n)
+                 /\ zget g (g_alloc n) = spec_galloc g (tasks_of n)
+                 /\ zget g (g_rel n) = spec_grel g (tasks_of n)))
+  /\ (sorted_keys (n_pods n) /\ Forall (fun kv => t_id (snd kv) = fst kv) (n_pods n)).
+Proof. exact books_unfold. Qed.
+Print Assumptions C14_books_meaning.
+
+(** Main invariant: after any sequence of operations, used (all six columns),
+    idle and releasing (cpu, memory, pod slots, MIG, extended), the three
+    per-GPU-group shared-memory maps and the pod map agree with the values
+    recomputed from the pods present. *)
+Theorem C14_node_books : forall (n0 : node) (ops : list nop), Books n0 -> Books (run n0 ops).
+Proof. exact node_books. Qed.
+Print Assumptions C14_node_books.
+
+(** Every freshly built node (no pods, no groups, idle = allocatable) satisfies it. *)
+Theorem C14_node_books_init : forall n : node,
+  n_pods n = [] -> g_used n = [] -> g_alloc n = [] -> g_rel n = [] ->
+  n_idle n = n_alloc n -> n_used n = rzero -> n_rel n = rzero ->
+  Books n.
+Proof. exact node_books_init. Qed.
+Print Assumptions C14_node_books_init.
+
+(** The invariant implies the executable monitor the harness evaluates on the
+    real NodeInfo after every operation. *)
+Theorem C14_books_monitor : forall n : node, Books n -> books_ok false n (tasks_of n) = true.
+Proof. exact books_ok_of_Books. Qed.
+Print Assumptions C14_books_monitor.
+
+(** On a well-formed node an update of a pod that is present never stops half-way
+    (so skipping failed operations in [run] loses nothing). *)
+Theorem C14_update_total : forall (n : node) (t : task),
+  wf_pods (n_pods n) -> amem (t_id t) (n_pods n) = true -> exists n', update_task n t = Ok n'.
+Proof. exact update_task_ok. Qed.
+Print Assumptions C14_update_total.
+
+(** Without shared tasks all six columns of used, idle and releasing are exact. *)
+Theorem C14_node_wholegpu_exact : forall (n0 : node) (ops : list nop),
+  Books n0 ->
+  gpu (n_idle n0) = gpu (spec_idle (n_alloc n0) (tasks_of n0)) ->
+  gpu (n_rel n0) = gpu (spec_rel (tasks_of n0)) ->
+  Forall (fun t => is_shared t = false) (tasks_of n0) ->
+  Forall (fun t => is_shared t = false) (op_tasks ops) ->
+  let n := run n0 ops in
+  n_used n = spec_used (tasks_of n)
+  /\ n_idle n = spec_idle (n_alloc n) (tasks_of n)
+  /\ n_rel n = spec_rel (tasks_of n).
+Proof. exact node_wholegpu_exact. Qed.
+Print Assumptions C14_node_wholegpu_exact.
+
+(** Removing a non-shared task right after adding it restores the whole node
+    (idle, used, releasing, group maps, marks, pod map). *)
+Theorem C14_remove_add_inverse : forall (n : node) (t : task),
+  amem (t_id t) (n_pods n) = false -> is_shared t = false ->
+  exists n', add_task n t = Ok n' /\ remove_task n' (t_id t) = Ok n.
+Proof. exact remove_add_inverse. Qed.
+Print Assumptions C14_remove_add_inverse.
+
+(** The same for shared tasks on a node without a nominated GPU holder — the
+    full statement ([restored]: every column, group maps read through [zget]). *)
+Definition C14_remove_add_inverse_shared : Prop :=
+  forall n t, Books n -> amem (t_id t) (n_pods n) = false -> exposed (tasks_of n) t = false ->
+    exists n' n'', add_task n t = Ok n' /\ remove_task n' (t_id t) = Ok n'' /\ restored n'' n.
+
+(** It is false in the model (and the model agrees with the Go code on this
+    path): nominating a sharer onto a device whose only sharer is terminating
+    and withdrawing the nomination loses one releasing GPU.  The node of the
+    witness is reached from an empty 4-GPU node, the task has positive memory. *)
+Theorem C14_remove_add_inverse_shared_refuted : ~ C14_remove_add_inverse_shared.
+Proof. exact remove_add_inverse_shared_false. Qed.
+Print Assumptions C14_remove_add_inverse_shared_refuted.
+
+Theorem C14_remove_add_inverse_shared_witness :
+  exists n t n' n'',
+    Books n /\ amem (t_id t) (n_pods n) = false /\ exposed (tasks_of n) t = false
+    /\ (0 < t_gmem t)%Z /\ n_ngpu n = gpu (n_alloc n)
+    /\ add_task n t = Ok n' /\ remove_task n' (t_id t) = Ok n''
+    /\ gpu (n_rel n) = 1%Z /\ gpu (n_rel n'') = 0%Z.
+Proof. exact remove_add_inverse_shared_refuted. Qed.
+Print Assumptions C14_remove_add_inverse_shared_witness.
+
+(** The group maps are restored only extensionally (a zero entry stays behind). *)
+Theorem C14_remove_add_inverse_maps_refuted :
+  exists t n' n'',
+    add_task x_node t = Ok n' /\ remove_task n' (t_id t) = Ok n''
+    /\ g_used x_node = [] /\ g_used n'' = [(1%positive, 0%Z)].
+Proof. exact remove_add_inverse_shared_maps_refuted. Qed.
+Print Assumptions C14_remove_add_inverse_maps_refuted.
+
+(** What does hold for every task, shared or not, on every node: used, the pod
+    map, idle / releasing except whole GPUs, and the group maps read through
+    [zget] are restored.  Missing w.r.t. the full statement: the whole-GPU idle
+    and releasing counts of a shared task. *)
+Theorem C14_remove_add_inverse_shared_partial : forall (n : node) (t : task),
+  amem (t_id t) (n_pods n) = false ->
+  exists n' n'', add_task n t = Ok n' /\ remove_task n' (t_id t) = Ok n''
+    /\ n_alloc n'' = n_alloc n /\ n_used n'' = n_used n /\ n_pods n'' = n_pods n
+    /\ eq_nogpu (n_idle n'') (n_idle n) /\ eq_nogpu (n_rel n'') (n_rel n)
+    /\ forall g, zget g (g_used n'') = zget g (g_used n)
+              /\ zget g (g_alloc n'') = zget g (g_alloc n)
+              /\ zget g (g_rel n'') = zget g (g_rel n).
+Proof. exact remove_add_inverse_any. Qed.
+Print Assumptions C14_remove_add_inverse_shared_partial.
+
+(** A sufficient local condition for shared tasks: one device, status other than
+    Pipelined, positive memory, and consistent books of that device
+    ([group_tight]: used memory >= 0; no releasing memory on an unused device;
+    the releasing mark is set exactly when all used memory is releasing; idle
+    GPUs + used GPUs = GPUs of the node; sorted maps).  Then every column and
+    the releasing marks are restored. *)
+Theorem C14_remove_add_inverse_shared_local : forall (n : node) (t : task) (g : positive),
+  amem (t_id t) (n_pods n) = false -> is_shared t = true -> t_groups t = [g] ->
+  t_status t <> Pipelined -> (0 < t_gmem t)%Z ->
+  ((0 <= zget g (g_used n))%Z
+   /\ (zget g (g_used n) = 0%Z -> zget g (g_rel n) = 0%Z)
+   /\ (marked g (g_mark n) = true <-> (zget g (g_used n) <> 0%Z /\ zget g (g_rel n) = zget g (g_used n)))
+   /\ (gpu (n_idle n) + used_gpus n (g_used n))%Z = n_ngpu n
+   /\ sorted_keys (g_used n) /\ sorted_keys (g_mark n)) ->
+  exists n' n'', add_task n t = Ok n' /\ remove_task n' (t_id t) = Ok n'' /\ restored n'' n
+     /\ forall g', marked g' (g_mark n'') = marked g' (g_mark n).
+Proof. exact remove_add_inverse_shared_local. Qed.
+Print Assumptions C14_remove_add_inverse_shared_local.
+
+(** Its hypotheses are met on [nv_node] for a device with a running sharer, a
+    marked releasing device and an unused device; on the releasing device the
+    pair moves the releasing-GPU count 1 -> 0 -> 1. *)
+Theorem C14_shared_local_nonvacuous :
+  group_tight nv_node 1 /\ group_tight nv_node 2 /\ group_tight nv_node 3
+  /\ exists n' n'',
+       add_task nv_node (x_sh 1 Running 50 [2%positive]) = Ok n' /\ remove_task n' 1 = Ok n''
+       /\ gpu (n_rel nv_node) = 1%Z /\ gpu (n_rel n') = 0%Z /\ gpu (n_rel n'') = 1%Z
+       /\ marked 2 (g_mark n') = false /\ marked 2 (g_mark n'') = true.
+Proof. exact shared_local_nonvacuous. Qed.
+Print Assumptions C14_shared_local_nonvacuous.
+
+(** Non-vacuity: a concrete node with a running sharer, a whole-GPU pod and a
+    terminating sharer satisfies [Books]; so does the node after a sequence
+    with an eviction, a removal, a nomination onto a shared device, two
+    rejected operations and a whole-GPU add; the result is non-trivial. *)
+Theorem C14_nonvacuous :
+  Books nv_node
+  /\ Books (run nv_node nv_ops)
+  /\ map t_id (tasks_of (run nv_node nv_ops)) = [2; 4; 5; 6]%positive
+  /\ zget 1 (g_used (run nv_node nv_ops)) = 50%Z
+  /\ zget 1 (g_rel (run nv_node nv_ops)) = 10%Z
+  /\ n_used (run nv_node nv_ops) = mkRes 400 400 2 4 0 0
+  /\ books_ok false (run nv_node nv_ops) (tasks_of (run nv_node nv_ops)) = true.
+Proof. exact node_books_nonvacuous. Qed.
+Print Assumptions C14_nonvacuous.
+
+(** Non-vacuity of [C14_node_wholegpu_exact]: its hypotheses hold for a
+    concrete run over whole-GPU pods (statuses Running, Pipelined, Releasing, Binding). *)
+Theorem C14_wholegpu_nonvacuous :
+  Books x_node
+  /\ Forall (fun t => is_shared t = false) (tasks_of x_node)
+  /\ Forall (fun t => is_shared t = false) (op_tasks nv_ops_whole)
+  /\ n_idle (run x_node nv_ops_whole) = mkRes 7800 7800 2 108 0 0
+  /\ n_rel (run x_node nv_ops_whole) = mkRes 100 100 1 1 0 0.
+Proof. exact node_wholegpu_nonvacuous. Qed.
+Print Assumptions C14_wholegpu_nonvacuous.
